@@ -10,56 +10,83 @@ Check (C11_restart_committed
          (enc_basic : basic -> blob) (dec_basic : blob -> option basic) (enc_nets : nets -> blob)
          (dec_nets : blob -> option nets) (enc_labels : N -> blob) (dec_labels : blob -> option N)
          (enc_binds : list (N * N) -> blob) (dec_binds : blob -> option (list (N * N)))
-         (enc_res : list (N * N) -> blob) (dec_res : blob -> option (list (N * N))),
+         (enc_res : list (N * N) -> blob) (dec_res : blob -> option (list (N * N))) 
+         (enc_tz : N -> blob) (dec_tz : blob -> option N) (enc_tts : N * N -> blob)
+         (dec_tts : blob -> option (N * N)) (enc_icd : list (N * N) -> blob)
+         (dec_icd : blob -> option (list (N * N))) (enc_ota : list (N * N) -> blob)
+         (dec_ota : blob -> option (list (N * N))) (enc_scenes : list (N * N) -> blob)
+         (dec_scenes : blob -> option (list (N * N))),
        (forall (i : N) (f : fabric), dec_fab (enc_fab i f) = Some (i, f)) ->
        (forall v : basic, dec_basic (enc_basic v) = Some v) ->
        (forall v : nets, dec_nets (enc_nets v) = Some v) ->
        (forall v : N, dec_labels (enc_labels v) = Some v) ->
        (forall v : list (N * N), dec_binds (enc_binds v) = Some v) ->
        (forall v : list (N * N), dec_res (enc_res v) = Some v) ->
+       (forall v : N, dec_tz (enc_tz v) = Some v) ->
+       (forall v : N * N, dec_tts (enc_tts v) = Some v) ->
+       (forall v : list (N * N), dec_icd (enc_icd v) = Some v) ->
+       (forall v : list (N * N), dec_ota (enc_ota v) = Some v) ->
+       (forall v : list (N * N), dec_scenes (enc_scenes v) = Some v) ->
        forall st : state blob,
-       Inv blob enc_fab enc_basic enc_nets enc_labels enc_binds enc_res st ->
+       Inv blob enc_fab enc_basic enc_nets enc_labels enc_binds enc_res enc_tz enc_tts enc_icd enc_ota
+         enc_scenes st ->
        exists r : ram,
-         boot blob dec_fab dec_basic dec_nets dec_labels dec_binds enc_res dec_res (s_kv st) = Some r /\
-         committed_view blob st r).
+         boot blob dec_fab dec_basic dec_nets dec_labels dec_binds enc_res dec_res dec_tz dec_tts dec_icd
+           dec_ota dec_scenes (s_kv st) = Some r /\ committed_view blob st r).
 
 Check (C11_prefix_consistent
   : forall (blob : Type) (enc_fab : N -> fabric -> blob) (dec_fab : blob -> option (N * fabric))
          (enc_basic : basic -> blob) (dec_basic : blob -> option basic) (enc_nets : nets -> blob)
          (dec_nets : blob -> option nets) (enc_labels : N -> blob) (dec_labels : blob -> option N)
          (enc_binds : list (N * N) -> blob) (dec_binds : blob -> option (list (N * N)))
-         (enc_res : list (N * N) -> blob) (dec_res : blob -> option (list (N * N))),
+         (enc_res : list (N * N) -> blob) (dec_res : blob -> option (list (N * N))) 
+         (enc_tz : N -> blob) (dec_tz : blob -> option N) (enc_tts : N * N -> blob)
+         (dec_tts : blob -> option (N * N)) (enc_icd : list (N * N) -> blob)
+         (dec_icd : blob -> option (list (N * N))) (enc_ota : list (N * N) -> blob)
+         (dec_ota : blob -> option (list (N * N))) (enc_scenes : list (N * N) -> blob)
+         (dec_scenes : blob -> option (list (N * N))),
        (forall (i : N) (f : fabric), dec_fab (enc_fab i f) = Some (i, f)) ->
        (forall v : basic, dec_basic (enc_basic v) = Some v) ->
        (forall v : nets, dec_nets (enc_nets v) = Some v) ->
        (forall v : N, dec_labels (enc_labels v) = Some v) ->
        (forall v : list (N * N), dec_binds (enc_binds v) = Some v) ->
        (forall v : list (N * N), dec_res (enc_res v) = Some v) ->
+       (forall v : N, dec_tz (enc_tz v) = Some v) ->
+       (forall v : N * N, dec_tts (enc_tts v) = Some v) ->
+       (forall v : list (N * N), dec_icd (enc_icd v) = Some v) ->
+       (forall v : list (N * N), dec_ota (enc_ota v) = Some v) ->
+       (forall v : list (N * N), dec_scenes (enc_scenes v) = Some v) ->
        forall (st0 : state blob) (ops : list op) (n : nat),
-       Inv blob enc_fab enc_basic enc_nets enc_labels enc_binds enc_res st0 ->
+       Inv blob enc_fab enc_basic enc_nets enc_labels enc_binds enc_res enc_tz enc_tts enc_icd enc_ota
+         enc_scenes st0 ->
        (n <=
         length
           (full_log blob
              (snd
                 (run blob enc_fab dec_fab enc_basic dec_basic enc_nets dec_nets enc_labels dec_labels
-                   enc_binds dec_binds enc_res dec_res true st0 ops))))%nat ->
+                   enc_binds dec_binds enc_res dec_res enc_tz dec_tz enc_tts dec_tts enc_icd dec_icd enc_ota
+                   dec_ota enc_scenes dec_scenes true st0 ops))))%nat ->
        (forall j : nat,
         ~
         cut_inside blob enc_fab dec_fab enc_basic dec_basic enc_nets dec_nets enc_labels dec_labels enc_binds
-          dec_binds enc_res dec_res st0 ops n j) ->
+          dec_binds enc_res dec_res enc_tz dec_tz enc_tts dec_tts enc_icd dec_icd enc_ota dec_ota enc_scenes
+          dec_scenes st0 ops n j) ->
        exists (j : nat) (r : ram),
          (j <= length ops)%nat /\
-         boot blob dec_fab dec_basic dec_nets dec_labels dec_binds enc_res dec_res
+         boot blob dec_fab dec_basic dec_nets dec_labels dec_binds enc_res dec_res dec_tz dec_tts dec_icd
+           dec_ota dec_scenes
            (replay blob (s_kv st0)
               (firstn n
                  (full_log blob
                     (snd
                        (run blob enc_fab dec_fab enc_basic dec_basic enc_nets dec_nets enc_labels dec_labels
-                          enc_binds dec_binds enc_res dec_res true st0 ops))))) = 
+                          enc_binds dec_binds enc_res dec_res enc_tz dec_tz enc_tts dec_tts enc_icd dec_icd
+                          enc_ota dec_ota enc_scenes dec_scenes true st0 ops))))) = 
          Some r /\
          committed_view blob
            (state_at blob enc_fab dec_fab enc_basic dec_basic enc_nets dec_nets enc_labels dec_labels
-              enc_binds dec_binds enc_res dec_res st0 ops j) r).
+              enc_binds dec_binds enc_res dec_res enc_tz dec_tz enc_tts dec_tts enc_icd dec_icd enc_ota
+              dec_ota enc_scenes dec_scenes st0 ops j) r).
 
 Check (C11_ack_implies_durable
   : forall (blob : Type) (enc_fab : N -> fabric -> blob) (dec_fab : blob -> option (N * fabric))
@@ -67,11 +94,17 @@ Check (C11_ack_implies_durable
          (dec_nets : blob -> option nets) (enc_labels : N -> blob) (dec_labels : blob -> option N)
          (enc_binds : list (N * N) -> blob) (dec_binds : blob -> option (list (N * N)))
          (enc_res : list (N * N) -> blob) (dec_res : blob -> option (list (N * N))) 
-         (fx : bool) (st : state blob) (o : op),
+         (enc_tz : N -> blob) (dec_tz : blob -> option N) (enc_tts : N * N -> blob)
+         (dec_tts : blob -> option (N * N)) (enc_icd : list (N * N) -> blob)
+         (dec_icd : blob -> option (list (N * N))) (enc_ota : list (N * N) -> blob)
+         (dec_ota : blob -> option (list (N * N))) (enc_scenes : list (N * N) -> blob)
+         (dec_scenes : blob -> option (list (N * N))) (fx : bool) (st : state blob) 
+         (o : op),
        ack_is_last blob
          (snd
             (step blob enc_fab dec_fab enc_basic dec_basic enc_nets dec_nets enc_labels dec_labels enc_binds
-               dec_binds enc_res dec_res fx st o)) = true).
+               dec_binds enc_res dec_res enc_tz dec_tz enc_tts dec_tts enc_icd dec_icd enc_ota dec_ota
+               enc_scenes dec_scenes fx st o)) = true).
 
 Check (C11_nothing_uncommitted
   : forall (blob : Type) (enc_fab : N -> fabric -> blob) (dec_fab : blob -> option (N * fabric))
@@ -79,12 +112,17 @@ Check (C11_nothing_uncommitted
          (dec_nets : blob -> option nets) (enc_labels : N -> blob) (dec_labels : blob -> option N)
          (enc_binds : list (N * N) -> blob) (dec_binds : blob -> option (list (N * N)))
          (enc_res : list (N * N) -> blob) (dec_res : blob -> option (list (N * N))) 
-         (st : state blob) (o : op),
+         (enc_tz : N -> blob) (dec_tz : blob -> option N) (enc_tts : N * N -> blob)
+         (dec_tts : blob -> option (N * N)) (enc_icd : list (N * N) -> blob)
+         (dec_icd : blob -> option (list (N * N))) (enc_ota : list (N * N) -> blob)
+         (dec_ota : blob -> option (list (N * N))) (enc_scenes : list (N * N) -> blob)
+         (dec_scenes : blob -> option (list (N * N))) (st : state blob) (o : op),
        gate_closed blob st o = true ->
        kvlog blob
          (snd
             (step blob enc_fab dec_fab enc_basic dec_basic enc_nets dec_nets enc_labels dec_labels enc_binds
-               dec_binds enc_res dec_res true st o)) = []).
+               dec_binds enc_res dec_res enc_tz dec_tz enc_tts dec_tts enc_icd dec_icd enc_ota dec_ota
+               enc_scenes dec_scenes true st o)) = []).
 
 Check (C11_factory_reset_empty
   : forall (blob : Type) (enc_fab : N -> fabric -> blob) (dec_fab : blob -> option (N * fabric))
@@ -92,31 +130,47 @@ Check (C11_factory_reset_empty
          (dec_nets : blob -> option nets) (enc_labels : N -> blob) (dec_labels : blob -> option N)
          (enc_binds : list (N * N) -> blob) (dec_binds : blob -> option (list (N * N)))
          (enc_res : list (N * N) -> blob) (dec_res : blob -> option (list (N * N))) 
-         (st : state blob) (k : N),
+         (enc_tz : N -> blob) (dec_tz : blob -> option N) (enc_tts : N * N -> blob)
+         (dec_tts : blob -> option (N * N)) (enc_icd : list (N * N) -> blob)
+         (dec_icd : blob -> option (list (N * N))) (enc_ota : list (N * N) -> blob)
+         (dec_ota : blob -> option (list (N * N))) (enc_scenes : list (N * N) -> blob)
+         (dec_scenes : blob -> option (list (N * N))) (st : state blob) (k : N),
        In k writable_keys ->
        aget
          (s_kv
             (fst
                (step blob enc_fab dec_fab enc_basic dec_basic enc_nets dec_nets enc_labels dec_labels
-                  enc_binds dec_binds enc_res dec_res true st OReset))) k = None).
+                  enc_binds dec_binds enc_res dec_res enc_tz dec_tz enc_tts dec_tts enc_icd dec_icd enc_ota
+                  dec_ota enc_scenes dec_scenes true st OReset))) k = None).
 
 Check (C11_bad_cache_boots
   : forall (blob : Type) (enc_fab : N -> fabric -> blob) (dec_fab : blob -> option (N * fabric))
          (enc_basic : basic -> blob) (dec_basic : blob -> option basic) (enc_nets : nets -> blob)
          (dec_nets : blob -> option nets) (enc_labels : N -> blob) (dec_labels : blob -> option N)
          (enc_binds : list (N * N) -> blob) (dec_binds : blob -> option (list (N * N)))
-         (enc_res : list (N * N) -> blob) (dec_res : blob -> option (list (N * N))),
+         (enc_res : list (N * N) -> blob) (dec_res : blob -> option (list (N * N))) 
+         (enc_tz : N -> blob) (dec_tz : blob -> option N) (enc_tts : N * N -> blob)
+         (dec_tts : blob -> option (N * N)) (enc_icd : list (N * N) -> blob)
+         (dec_icd : blob -> option (list (N * N))) (enc_ota : list (N * N) -> blob)
+         (dec_ota : blob -> option (list (N * N))) (enc_scenes : list (N * N) -> blob)
+         (dec_scenes : blob -> option (list (N * N))),
        (forall (i : N) (f : fabric), dec_fab (enc_fab i f) = Some (i, f)) ->
        (forall v : basic, dec_basic (enc_basic v) = Some v) ->
        (forall v : nets, dec_nets (enc_nets v) = Some v) ->
        (forall v : N, dec_labels (enc_labels v) = Some v) ->
        (forall v : list (N * N), dec_binds (enc_binds v) = Some v) ->
        (forall v : list (N * N), dec_res (enc_res v) = Some v) ->
+       (forall v : N, dec_tz (enc_tz v) = Some v) ->
+       (forall v : N * N, dec_tts (enc_tts v) = Some v) ->
+       (forall v : list (N * N), dec_icd (enc_icd v) = Some v) ->
+       (forall v : list (N * N), dec_ota (enc_ota v) = Some v) ->
+       (forall v : list (N * N), dec_scenes (enc_scenes v) = Some v) ->
        forall (st : state blob) (b : blob),
-       Inv blob enc_fab enc_basic enc_nets enc_labels enc_binds enc_res st ->
+       Inv blob enc_fab enc_basic enc_nets enc_labels enc_binds enc_res enc_tz enc_tts enc_icd enc_ota
+         enc_scenes st ->
        exists (r : ram) (ops : list (kvop blob)),
-         startup blob dec_fab dec_basic dec_nets dec_labels dec_binds enc_res dec_res
-           (aset (s_kv st) K_RESUMP b) = Some (r, ops) /\
+         startup blob dec_fab dec_basic dec_nets dec_labels dec_binds enc_res dec_res dec_tz dec_tts dec_icd
+           dec_ota dec_scenes (aset (s_kv st) K_RESUMP b) = Some (r, ops) /\
          committed_view blob st r /\
          (dec_res b = None -> r_resump r = [] /\ ops = [KRemove K_RESUMP]) /\
          (aget (replay blob (aset (s_kv st) K_RESUMP b) ops) K_RESUMP = None \/
